@@ -24,14 +24,22 @@
 //!            side; otherwise `AddrNotAvailable` (non-local) / `AddrInUse`.
 //!            Port 0 yields a port of the ephemeral range that no live socket
 //!            of that (family, protocol) uses at *any* local address, and
-//!            fails with `AddrInUse` exactly when there is none.  `local_addr`
+//!            fails with `AddrInUse` exactly when there is none.  When BOTH
+//!            failure reasons hold at once (non-local address AND the port is
+//!            held by a wildcard socket / the range is exhausted) the property
+//!            does not rank them: either kind is accepted; with exactly one
+//!            reason the kind is asserted.  `local_addr`
 //!            reports the bound address.  Closing frees the binding (observed
 //!            through later binds, and through H2 counts after every step).
 //! * CONNECT  (scenario step, TCP) `Ok` iff the model finds a listener for
 //!            the destination (exact address, else wildcard, same family) on
 //!            the host owning the address (loopback: the own host);
 //!            `ConnectionRefused` otherwise; unknown address -> `TimedOut`;
-//!            ephemeral range exhausted -> `AddrInUse`.  The client's local
+//!            ephemeral range exhausted -> the connect fails at once and leaves
+//!            no socket behind, with `AddrInUse` or `AddrNotAvailable` (the
+//!            property does not name the kind for the implicit source-port bind
+//!            of a connect; Linux says EADDRNOTAVAIL); a connect that fails this
+//!            way while a port IS free is a violation.  The client's local
 //!            address is some address of its host in the family (loopback
 //!            towards loopback) with a free ephemeral port.  The connection comes
 //!            out of exactly that listener with mirrored addresses, exactly once (a second
@@ -365,26 +373,41 @@ impl Sim {
 
     // ------------------------------------------------------------ model functions
 
-    /// Expected result of bind(addr, port) on host h: Err(kind) or Ok(set of admissible ports)
-    fn model_bind(&self, h: usize, tcp: bool, addr: IpAddr, port: u16, range: &std::ops::RangeInclusive<u16>) -> Result<BTreeSet<u16>, ErrorKind> {
-        if !addr.is_unspecified() && !self.is_local(h, addr) {
-            return Err(ErrorKind::AddrNotAvailable);
-        }
+    /// Expected result of bind(addr, port) on host h: Ok(set of admissible ports), or Err(the error
+    /// kinds the property admits).  The bind must fail iff at least one of the two failure reasons
+    /// holds: the address is not local (`AddrNotAvailable`), or the port is taken -- a conflicting
+    /// live socket on an explicit port, no free ephemeral port for port 0 -- (`AddrInUse`).  The
+    /// property says a failing bind "fails with AddrInUse or AddrNotAvailable" and does not rank the
+    /// two reasons: when exactly one holds its kind is the only admissible one, when BOTH hold
+    /// (non-local address whose port is held by a wildcard socket; non-local address with port 0
+    /// while the range is exhausted) either kind is admissible, the reason found first listed first.
+    fn model_bind(&self, h: usize, tcp: bool, addr: IpAddr, port: u16, range: &std::ops::RangeInclusive<u16>) -> Result<BTreeSet<u16>, Vec<ErrorKind>> {
+        let not_local = !addr.is_unspecified() && !self.is_local(h, addr);
         let v6 = addr.is_ipv6();
         let same = |e: &&Entry| e.live && e.host == h && e.tcp == tcp && e.v6() == v6;
-        if port == 0 {
+        let ports: BTreeSet<u16> = if port == 0 {
             let used: BTreeSet<u16> = self.entries.iter().filter(same).map(|e| e.port).collect();
-            let free: BTreeSet<u16> = range.clone().filter(|p| !used.contains(p)).collect();
-            if free.is_empty() {
-                return Err(ErrorKind::AddrInUse);
+            range.clone().filter(|p| !used.contains(p)).collect()
+        } else {
+            let conflict = self.entries.iter().filter(same).any(|e| e.port == port && (e.addr == addr || e.addr.is_unspecified() || addr.is_unspecified()));
+            if conflict {
+                BTreeSet::new()
+            } else {
+                [port].into_iter().collect()
             }
-            return Ok(free);
+        };
+        let mut kinds = Vec::new();
+        if not_local {
+            kinds.push(ErrorKind::AddrNotAvailable);
         }
-        let conflict = self.entries.iter().filter(same).any(|e| e.port == port && (e.addr == addr || e.addr.is_unspecified() || addr.is_unspecified()));
-        if conflict {
-            return Err(ErrorKind::AddrInUse);
+        if ports.is_empty() {
+            kinds.push(ErrorKind::AddrInUse);
         }
-        Ok([port].into_iter().collect())
+        if kinds.is_empty() {
+            Ok(ports)
+        } else {
+            Err(kinds)
+        }
     }
 
     /// Source addresses a socket of host `h` that is not tied to one local address (bound to the
@@ -610,9 +633,10 @@ impl Sim {
                 self.objs.push(obj);
                 Some(self.entries.len() - 1)
             }
-            (Ok(local), Err(k)) => {
-                let d = format!("{}: Ok (local_addr {local}) but the model says {k:?}", ctx(self));
+            (Ok(local), Err(ks)) => {
+                let d = format!("{}: Ok (local_addr {local}) but the model says {ks:?}", ctx(self));
                 drop(obj);
+                let k = ks[0];
                 self.fail(&format!("bind:ok-where-the-model-says-{k:?}"), d);
                 None
             }
@@ -621,12 +645,18 @@ impl Sim {
                 self.fail(&format!("bind:{:?}-where-the-model-says-ok", e.kind()), d);
                 None
             }
-            (Err(e), Err(k)) => {
-                if e.kind() != k {
-                    let d = format!("{}: {:?} but the model says {k:?}", ctx(self), e.kind());
+            (Err(e), Err(ks)) => {
+                if !ks.contains(&e.kind()) {
+                    let d = format!("{}: {:?} but the model admits only {ks:?}", ctx(self), e.kind());
                     self.fail("bind:wrong-error-kind", d);
-                } else if port == 0 && k == ErrorKind::AddrInUse && !probe {
-                    self.out.label("port0:exhausted");
+                } else {
+                    if ks.len() > 1 && !probe {
+                        // both failure reasons hold: the property does not rank them
+                        self.out.label(format!("bind:both-failure-reasons-hold:{:?}", e.kind()));
+                    }
+                    if port == 0 && ks == [ErrorKind::AddrInUse] && !probe {
+                        self.out.label("port0:exhausted");
+                    }
                 }
                 None
             }
@@ -721,7 +751,12 @@ impl Sim {
             return;
         }
         let route = self.route_syn(h, dst);
-        let exp: Result<usize, ErrorKind> = if free.is_empty() {
+        // No free ephemeral port: the connect must fail (and leave no socket or binding behind, see
+        // the count check after the step), but the property does not name the error KIND of a
+        // connect that cannot get a source port -- AddrInUse (the port space is used up) and
+        // AddrNotAvailable (Linux connect(2): EADDRNOTAVAIL) are both admitted.
+        let exhausted = free.is_empty();
+        let exp: Result<usize, ErrorKind> = if exhausted {
             Err(ErrorKind::AddrInUse)
         } else {
             match route {
@@ -818,6 +853,13 @@ impl Sim {
             }
             (Err(e), Ok(_)) => self.fail(&format!("connect:{:?}-where-the-model-names-a-listener", e.kind()), format!("{ctx}: {e:?}")),
             (Err(e), Err(k)) => {
+                if exhausted {
+                    self.out.label(format!("connect:ephemeral-range-exhausted:{:?}", e.kind()));
+                    if !matches!(e.kind(), ErrorKind::AddrInUse | ErrorKind::AddrNotAvailable) {
+                        self.fail("connect:wrong-error-kind", format!("{ctx} (no free ephemeral port: AddrInUse or AddrNotAvailable admitted): {e:?}"));
+                    }
+                    return;
+                }
                 self.out.label(format!("connect:{k:?}"));
                 if e.kind() != k {
                     self.fail("connect:wrong-error-kind", format!("{ctx}: {e:?}"));
@@ -1504,13 +1546,14 @@ fn check(tier: Tier, seed: u64) -> i32 {
     ctx.replay_corpus(&replay);
     ctx.random("table", tier.pick(30_000, 400_000), &|| strategy(), &run);
     ctx.finish(
-        "random scenarios: 2-3 hosts with 1-2 IPv4 and 1-2 IPv6 addresses each, ephemeral range 5001..=5001+k-1 (k = 1..4, hook H3; overlaps the fixed ports 5001 and 5002) x wire class (immediate 50% / delayed 50%: TCP segments of connects held 0 or 2..4 rounds by a generated pattern, in 35% of those one SYN-ACK lost; retx_threshold 3, retx_max 1 resp. 4) x 3-25 operations (UDP bind / TCP listener bind to wildcard, loopback, a local address, an address of another host, an unknown address or the IPv4-mapped / IPv4-compatible IPv6 spelling of an own IPv4 address (7% of the binds; must be AddrNotAvailable), port 0 or 5000/5001/5002; UDP connect to an address of some host, loopback, an unknown address or such an alias spelling; TCP connect (also to an alias spelling: must time out) + accept; close) x the full probe matrix (from every host a tagged UDP datagram and a TCP connect to every address of every host, loopback and an unknown address in both families, and -- from the IPv6 probe sockets -- to the IPv4-mapped (::ffff:a.b.c.d) and IPv4-compatible (::a.b.c.d) spelling of every owned IPv4 address and to ::ffff:127.0.0.1, which nobody owns (classes probe:*:alias-spelling-with-ipv6-wildcard-on-the-owner's-port count the cases where the owner of a.b.c.d has an IPv6 wildcard socket/listener on the probed port), on the 3 fixed ports and every port in use; the own send of every connected UDP socket and a datagram from its exact peer (sent from a socket bound to the peer address when one can be bound, else from a wildcard-bound socket on the peer's port); a tag each way on every established connection). Non-trivial = at some point >= 2 live UDP sockets / TCP listeners of one host share a port number across addresses, families or protocols; distinct by scenario hash.",
+        "random scenarios: 2-3 hosts with 1-2 IPv4 and 1-2 IPv6 addresses each, ephemeral range 5001..=5001+k-1 (k = 1..4, hook H3; overlaps the fixed ports 5001 and 5002) x wire class (immediate 50% / delayed 50%: TCP segments of connects held 0 or 2..4 rounds by a generated pattern, in 35% of those one SYN-ACK lost; retx_threshold 3, retx_max 1 resp. 4) x 3-25 operations (UDP bind / TCP listener bind to wildcard, loopback, a local address, an address of another host, an unknown address or the IPv4-mapped / IPv4-compatible IPv6 spelling of an own IPv4 address (7% of the binds; must fail: AddrNotAvailable, or also AddrInUse when a wildcard socket holds the port), port 0 or 5000/5001/5002; UDP connect to an address of some host, loopback, an unknown address or such an alias spelling; TCP connect (also to an alias spelling: must time out) + accept; close) x the full probe matrix (from every host a tagged UDP datagram and a TCP connect to every address of every host, loopback and an unknown address in both families, and -- from the IPv6 probe sockets -- to the IPv4-mapped (::ffff:a.b.c.d) and IPv4-compatible (::a.b.c.d) spelling of every owned IPv4 address and to ::ffff:127.0.0.1, which nobody owns (classes probe:*:alias-spelling-with-ipv6-wildcard-on-the-owner's-port count the cases where the owner of a.b.c.d has an IPv6 wildcard socket/listener on the probed port), on the 3 fixed ports and every port in use; the own send of every connected UDP socket and a datagram from its exact peer (sent from a socket bound to the peer address when one can be bound, else from a wildcard-bound socket on the peer's port); a tag each way on every established connection). Non-trivial = at some point >= 2 live UDP sockets / TCP listeners of one host share a port number across addresses, families or protocols; distinct by scenario hash.",
         &[
             "no SO_REUSEADDR/SO_REUSEPORT: the shim does not expose them and Kernel::set_option panics (unimplemented) for them; without them an exact-address socket and a wildcard socket of the same (family, protocol, port) can never coexist, so the 'exact before wildcard' order and the 'connected exact socket vs. wildcard fallback' case are not reachable through the public API",
             "IPv4 and IPv6 are separate port spaces (no dual-stack wildcard); turmoil-net documents no dual-stack delivery (IPV6_V6ONLY is listed as an option but set_option is unimplemented), address ownership is exact (Net::add_host registers the given IpAddr values, the fabric 'routes by destination IP and silently drops unknown addresses'), so ::ffff:a.b.c.d and ::a.b.c.d are addresses distinct from a.b.c.d that no host owns",
             "UDP datagrams and the segments of closing connections are always delivered in the round they are emitted; only TCP segments emitted while a connect is in progress are delayed / reordered (delayed class), holds <= 4 rounds and at most one lost SYN-ACK against a budget of retx_threshold 3 x retx_max 4, and the wire is left to settle before results, accept queues and table counts are judged",
             "TCP connections are closed on both ends and left to finish before the next step, so that 'live socket' is unambiguous",
-            "which free port an ephemeral allocation returns is not predicted (any port of the range unused at every local address of that family+protocol is accepted); exhaustion must fail with AddrInUse",
+            "which free port an ephemeral allocation returns is not predicted (any port of the range unused at every local address of that family+protocol is accepted); an explicit bind(addr:0) on an exhausted range must fail with AddrInUse; a TCP connect on an exhausted range must fail immediately, with AddrInUse or AddrNotAvailable (the property does not name the error kind of the implicit source-port bind), and must not fail that way while a port is free",
+            "error kind of a failing bind: AddrNotAvailable when only 'address not local' holds, AddrInUse when only 'port taken / no ephemeral port free' holds; when both hold (a non-local address whose port is held by a same-protocol wildcard socket, or non-local:0 on an exhausted range) the property ('fails with AddrInUse or AddrNotAvailable otherwise') does not rank the reasons and either kind is accepted (class bind:both-failure-reasons-hold:*); that the bind fails is asserted in every case",
             "the source address chosen by a sender that is not tied to one local address is not asserted: a wildcard-bound UDP socket sending to a non-loopback destination, and the unbound socket of an outgoing TCP connect, may use any configured address of their host in the destination's family (loopback towards loopback). For such a datagram the model computes the receiving socket per candidate source (the connected-peer filter depends on it) and accepts the observation iff it equals the outcome of one candidate, with the receiver's `from` equal to exactly that candidate; a TCP client's local_addr must be one of the candidates with a free ephemeral port, and the accepting side must report exactly the address the client reports",
         ],
     )
